@@ -58,7 +58,11 @@ def build(links, prefix=''):
     lk[k] = symarr(prefix + k[:2] + k[-3:], (n,))
   free = [k == 'f' for _, k in M.dofs]
   stiff = np.array([Rat.lift(0) if fr else sym(prefix + 'k%d' % d) for d, fr in enumerate(free)], dtype=object)
-  sysd.f['dof'].f.update({'armature': M.armature, 'stiffness': stiff, 'damping': symarr(prefix + 'dmp', (nv,)),
+  # per-axis armature / damping on the world-aligned translational dofs of a free joint is not a
+  # frame-independent model (the generator puts them on hinge / slide joints only)
+  M.armature = np.array([Rat.lift(0) if fr else a for a, fr in zip(M.armature, free)], dtype=object)
+  damp = np.array([Rat.lift(0) if fr else sym(prefix + 'dmp%d' % d) for d, fr in enumerate(free)], dtype=object)
+  sysd.f['dof'].f.update({'armature': M.armature, 'stiffness': stiff, 'damping': damp,
                           'invweight': symarr(prefix + 'diw', (nv,)), 'solver_params': symarr(prefix + 'sp', (nv, 7))})
   sysd.f.update({'matrix_inv_iterations': 0, 'solver_iterations': 1, 'solver_maxls': 1, 'mj_model': None, 'nu': 0})
   sysd.f['actuator'] = Struct('Actuator', {})
@@ -152,7 +156,6 @@ EQUIV_THOROUGH = [
 def trial(seed, body, max_tries=60):
   for t in range(max_tries):
     avn.field_mode(seed * 7919 + t, decide=lambda nm: 1 if nm.kind == 'any' else None)
-    avn.FIELD['sqrt_axiom'] = True
     try:
       return body()
     except avn.NonResidue:
@@ -189,5 +192,162 @@ def equivariance(U, rep, tier):
                 where=f.where(), construct='init + %d step(s): x -> G o x, xd -> R xd, root q moved, other q / qd unchanged' % steps)
 
 
+# ------------------------------------------------------------------------------ re-indexing systems
+def map_leaves(v, f):
+  if isinstance(v, Struct):
+    return Struct(v.cls, {k: map_leaves(x, f) for k, x in v.f.items()}, home=v.home)
+  if isinstance(v, tuple):
+    return tuple(map_leaves(x, f) for x in v)
+  if v is None:
+    return None
+  return f(asarr(v))
+
+
+def index_maps(links, perm):
+  """(dof map, q map) of the link order `perm` (new link i = old link perm[i])."""
+  M0 = type('L', (), {'links': links})
+  sp = spans(M0)
+  dmap = [d for p in perm for d in range(sp[p][1].start, sp[p][1].stop)]
+  qmap = [k for p in perm for k in range(sp[p][0].start, sp[p][0].stop)]
+  return dmap, qmap
+
+
+def reordered(links, sysd, q, qd, tau, perm):
+  """The same model with its links listed in the order perm."""
+  inv = {old: new for new, old in enumerate(perm)}
+  links2 = [dict(links[p], parent=-1 if links[p]['parent'] == -1 else inv[links[p]['parent']]) for p in perm]
+  if any(l['parent'] >= i for i, l in enumerate(links2)):
+    raise AnalysisError('C05: link order %r is not topological' % (perm,))
+  dmap, qmap = index_maps(links, perm)
+  f = dict(sysd.f)
+  f['link'] = map_leaves(sysd.f['link'], lambda a: a[list(perm)])
+  f['dof'] = map_leaves(sysd.f['dof'], lambda a: a[dmap])
+  f['link_types'] = ''.join(sysd.f['link_types'][p] for p in perm)
+  f['link_parents'] = tuple(l['parent'] for l in links2)
+  return links2, Struct('System', f, home='brax.base'), asarr(q)[qmap], asarr(qd)[dmap], asarr(tau)[dmap]
+
+
+def merged(linksA, sysA, linksB, sysB):
+  nA = len(linksA)
+  cat = lambda a, b: map_leaves_2(a, b)
+  f = dict(sysA.f)
+  f['link'] = map_leaves_2(sysA.f['link'], sysB.f['link'])
+  f['dof'] = map_leaves_2(sysA.f['dof'], sysB.f['dof'])
+  f['link_types'] = sysA.f['link_types'] + sysB.f['link_types']
+  f['link_parents'] = tuple(sysA.f['link_parents']) + tuple(p + nA if p >= 0 else -1 for p in sysB.f['link_parents'])
+  for k in ('nq', 'nv'):
+    if k in f:
+      f[k] = sysA.f[k] + sysB.f[k]
+  links = list(linksA) + [dict(l, parent=l['parent'] + nA if l['parent'] >= 0 else -1) for l in linksB]
+  return links, Struct('System', f, home='brax.base')
+
+
+def map_leaves_2(a, b):
+  if isinstance(a, Struct):
+    return Struct(a.cls, {k: map_leaves_2(a.f[k], b.f[k]) for k in a.f}, home=a.home)
+  if isinstance(a, tuple):
+    return tuple(map_leaves_2(x, y) for x, y in zip(a, b))
+  if a is None:
+    return None
+  return np.concatenate([asarr(a), asarr(b)], axis=0)
+
+
+def link_view(links, st, i):
+  """Everything the state reports about link i (pose, velocity, its joint coordinates)."""
+  M0 = type('L', (), {'links': links})
+  sq, sd = spans(M0)[i]
+  return {'x.pos': st.f['x'].f['pos'][i], 'x.rot': st.f['x'].f['rot'][i], 'xd.ang': st.f['xd'].f['ang'][i],
+          'xd.vel': st.f['xd'].f['vel'][i], 'q': asarr(st.f['q'])[sq], 'qd': asarr(st.f['qd'])[sd]}
+
+
+def views_differ(a, b):
+  return [k for k in a if not (qsame(a[k], b[k]) if k == 'x.rot' else same(a[k], b[k]))]
+
+
+# ------------------------------------------------------------------------------ R5.2 sibling order
+ORDER = [
+    ('free root, children hinge / slide / hinge, grandchild under the second',
+     [dict(parent=-1, joints=F), dict(parent=0, joints=H), dict(parent=0, joints=S), dict(parent=0, joints=H), dict(parent=2, joints=H)],
+     [(0, 3, 2, 1, 4), (0, 2, 4, 3, 1)]),
+]
+ORDER_THOROUGH = [
+    ('two free roots with one child each, roots and children interleaved',
+     [dict(parent=-1, joints=F), dict(parent=-1, joints=F), dict(parent=0, joints=S), dict(parent=1, joints=H + S)],
+     [(1, 0, 3, 2), (1, 3, 0, 2), (0, 2, 1, 3)]),
+]
+
+
+def sibling_order(U, rep, tier):
+  s0 = int(os.environ.get('VERIF_SEED', '0') or 0)
+  steps = 1 if tier == 'quick' else 2
+  for backend in BACKENDS:
+    f = U.func('brax.%s.pipeline.step' % backend)
+    for name, links, perms in ORDER + (ORDER_THOROUGH if tier == 'thorough' else []):
+      found = None
+      for t in range(1 if tier == 'quick' else 3):
+        def body():
+          M, sysd, tau = build(links)
+          ref, _ = simulate(U, backend, sysd, M.q, M.qd, tau, steps)
+          for perm in perms:
+            links2, sys2, q2, qd2, tau2 = reordered(links, sysd, M.q, M.qd, tau, perm)
+            got, _ = simulate(U, backend, sys2, q2, qd2, tau2, steps)
+            for k, (a, b) in enumerate(zip(ref, got)):
+              for new, old in enumerate(perm):
+                bad = views_differ(link_view(links, a, old), link_view(links2, b, new))
+                if bad:
+                  return (perm, 'init' if k == 0 else 'step %d' % k, old, bad)
+          return None
+        found = trial(s0 * 100 + 50 + t, body)
+        if found:
+          break
+      rep.check(found is None, 'R5.2', '%s pipeline: links listed in another order [%s]' % (backend, name),
+                lambda: 'with the links listed in the order %r, after %s link %d reports different %s' % (
+                    found[0], found[1], found[2], ', '.join(found[3])),
+                where=f.where(), construct='%d link orders; init + %d step(s); per-link x, xd, q, qd permuted' % (len(perms), steps))
+
+
+# ------------------------------------------------------------------------------ R5.3 components
+PARTS = [
+    ('free root with a hinge child', [dict(parent=-1, joints=F), dict(parent=0, joints=H)]),
+    ('free root with slide and hinge children', [dict(parent=-1, joints=F), dict(parent=0, joints=S), dict(parent=0, joints=H)]),
+    ('free root - slide-hinge stack - hinge chain', [dict(parent=-1, joints=F), dict(parent=0, joints=S + H), dict(parent=1, joints=H)]),
+]
+
+
+def components(U, rep, tier):
+  s0 = int(os.environ.get('VERIF_SEED', '0') or 0)
+  steps = 1 if tier == 'quick' else 2
+  pairs = [(0, 1)] if tier == 'quick' else [(0, 1), (1, 2), (2, 0)]
+  for backend in BACKENDS:
+    f = U.func('brax.%s.pipeline.step' % backend)
+    for ia, ib in pairs:
+      (na, la), (nb, lb) = PARTS[ia], PARTS[ib]
+      found = None
+      for t in range(1 if tier == 'quick' else 3):
+        def body():
+          MA, sA, tA = build(la, 'A')
+          MB, sB, tB = build(lb, 'B')
+          links, sAB = merged(la, sA, lb, sB)
+          both, _ = simulate(U, backend, sAB, np.concatenate([MA.q, MB.q]), np.concatenate([MA.qd, MB.qd]),
+                             np.concatenate([tA, tB]), steps)
+          for part, lk, sy, Mm, tt, off in (('first', la, sA, MA, tA, 0), ('second', lb, sB, MB, tB, len(la))):
+            alone, _ = simulate(U, backend, sy, Mm.q, Mm.qd, tt, steps)
+            for k, (a, b) in enumerate(zip(alone, both)):
+              for i in range(len(lk)):
+                bad = views_differ(link_view(lk, a, i), link_view(links, b, off + i))
+                if bad:
+                  return (part, 'init' if k == 0 else 'step %d' % k, i, bad)
+          return None
+        found = trial(s0 * 100 + 80 + t, body)
+        if found:
+          break
+      rep.check(found is None, 'R5.3', '%s pipeline: [%s] merged with [%s] evolves as each alone' % (backend, na, nb),
+                lambda: 'in the merged system, after %s link %d of the %s model reports different %s than the model alone' % (
+                    found[1], found[2], found[0], ', '.join(found[3])),
+                where=f.where(), construct='init + %d step(s); per-link x, xd, q, qd' % steps)
+
+
 def run(U, rep, tier):
   equivariance(U, rep, tier)
+  sibling_order(U, rep, tier)
+  components(U, rep, tier)
